@@ -24,7 +24,7 @@ RULE = ('I2C EEPROM v0/v1: all channels / speeds / float32 trims incl. NaN and e
 ASSUMPTIONS = ['EEPROM layout: "0xBC", version, channel, speed, pitch trim, roll trim, [address hi, address lo32], sum mod 256',
                '1-wire layout: 0xEB, pins u32, vid, pid, crc32&0xFF | 0x00, len, TLV..., crc32&0xFF',
                'reads that would run past the 112-byte 1-wire memory fail on the device and are not generated']
-REQUIRED = ['mon.i2c_roundtrip', 'mon.i2c_corruptions', 'mon.ow_roundtrip', 'mon.ow_corruptions', 'mon.lh_mem', 'mon.lh_yaml',
+REQUIRED = ['mon.lh_config_writer_subsets_not_starting_at_zero_or_with_gaps', 'mon.i2c_roundtrip', 'mon.i2c_corruptions', 'mon.ow_roundtrip', 'mon.ow_corruptions', 'mon.lh_mem', 'mon.lh_yaml',
             'mon.param_yaml', 'mon.poly4d', 'mon.led_timings', 'mon.led_timing_entries_around_the_end_marker', 'mon.deck_info', 'mon.loco', 'mon.loco2', 'mon.ow_all_lengths',
             'mon.compressed_trajectory_uploads', 'mon.lh_memory_to_file_to_memory']
 DESC_TIMEOUT = 900
@@ -64,6 +64,35 @@ class MemHandler:
         cb = getattr(mem, '_write_done', None) or getattr(mem, 'write_done')
         cb(mem, addr)
         return True
+
+
+class DeferredMemHandler(MemHandler):
+    """Completions are delivered later (pump()), as the incoming thread of a real connection does - the callers of the
+    memory elements rely on a request returning before its completion callback runs."""
+
+    def __init__(self, size=0x3000, fill=0):
+        MemHandler.__init__(self, size, fill)
+        self.queue = []
+
+    def read(self, mem, addr, length):
+        self.queue.append(lambda: MemHandler.read(self, mem, addr, length))
+        return True
+
+    def write(self, mem, addr, data, flush_queue=False, progress_cb=None):
+        data = bytes(bytearray(data))
+        self.queue.append(lambda: MemHandler.write(self, mem, addr, data, flush_queue))
+        return True
+
+    def pump(self, more=None, limit=10000):
+        n = 0
+        while n < limit:
+            if self.queue:
+                self.queue.pop(0)()
+            elif more is not None and more():
+                pass
+            else:
+                break
+            n += 1
 
 
 def fbits(x):
@@ -317,6 +346,98 @@ def calib_eq(a, b):
     return a.uid == b.uid and all(getattr(a.sweeps[i], f) == getattr(b.sweeps[i], f) for i in range(2) for f in SWEEP_F)
 
 
+def run_lh_writer(ctx, rnd):
+    """LighthouseConfigWriter: geometry / calibration for ANY subset of base stations goes into the Crazyflie memory
+    layout; what was supplied reads back valid and equal, every other base station reads back invalid."""
+    import types
+    from cflib.crazyflie.mem import LighthouseMemory, LighthouseMemHelper
+    from cflib.localization.lighthouse_config_manager import LighthouseConfigWriter
+    from cflib.utils.callbacks import Caller
+    h = DeferredMemHandler(size=0x2000)
+    mem = LighthouseMemory(id=2, type=0x14, size=0x2000, mem_handler=h)
+    # stale but valid data in every slot (an earlier installation)
+    for bs in range(16):
+        mem.write_geo_data(bs, rand_geo(rnd, valid=True), lambda m, a: None)
+        h.pump()
+        mem.write_calib_data(bs, rand_calib(rnd, valid=True), lambda m, a: None)
+        h.pump()
+    del h.writes[:]
+    persisted = []
+    pending = []
+    loc = types.SimpleNamespace(receivedLocationPacket=Caller(), LH_PERSIST_DATA=11)
+
+    def send_persist(geo_list, calib_list):
+        persisted.append((sorted(geo_list), sorted(calib_list)))
+        pending.append(types.SimpleNamespace(type=11, data=True))      # (the confirmation arrives later, on the incoming thread)
+    loc.send_lh_persist_data_packet = send_persist
+    cf = types.SimpleNamespace(mem=types.SimpleNamespace(get_mems=lambda t: [mem] if t == 0x14 else []), loc=loc,
+                               param=types.SimpleNamespace(set_value=lambda *a: None))
+    shape = rnd.randrange(5)
+    if shape == 0:
+        ids = sorted(rnd.sample(range(16), rnd.randint(1, 4)))
+    elif shape == 1:
+        ids = [rnd.randrange(1, 16)]
+    elif shape == 2:
+        ids = list(range(rnd.randint(0, 4)))
+    elif shape == 3:
+        ids = sorted(rnd.sample(range(16), rnd.randint(5, 16)))
+    else:
+        ids = [0, rnd.randrange(2, 16)]
+    geos = {i: rand_geo(rnd) for i in ids} if rnd.random() < 0.85 else None
+    cids = ids if rnd.random() < 0.6 else sorted(rnd.sample(range(16), rnd.randint(0, 3)))
+    calibs = {i: rand_calib(rnd) for i in cids} if rnd.random() < 0.85 else None
+    if geos is None and calibs is None:
+        geos = {i: rand_geo(rnd) for i in ids}
+    done = []
+    ctx.evals()
+    ctx.count('mon.lh_config_writer_subsets')
+    if ids != list(range(len(ids))):
+        ctx.count('mon.lh_config_writer_subsets_not_starting_at_zero_or_with_gaps')
+    info = {'geometry_for': None if geos is None else sorted(geos), 'calibration_for': None if calibs is None else sorted(calibs)}
+    try:
+        LighthouseConfigWriter(cf).write_and_store_config(lambda ok: done.append(ok), geos=geos, calibs=calibs)
+
+        def confirm():
+            if pending and len(persisted) < 5:
+                loc.receivedLocationPacket.call(pending.pop(0))
+                return True
+            return False
+        h.pump(more=confirm)
+    except Exception as e:  # noqa
+        ctx.violate('lh:config-writer-raised:%s' % type(e).__name__, dict(info, error=repr(e)[:200]))
+        return
+    problems = []
+    if done != [True]:
+        problems.append('completion callback calls %r' % (done,))
+    got_g, got_c = [], []
+    helper = LighthouseMemHelper(cf)
+    helper.read_all_geos(lambda r: got_g.append(r))
+    h.pump()
+    helper.read_all_calibs(lambda r: got_c.append(r))
+    h.pump()
+    if geos is not None and got_g:
+        for bs in range(16):
+            o = got_g[0].get(bs)
+            if bs in geos:
+                if o is None or not o.valid or not geo_eq(o, geos[bs]):
+                    problems.append('geometry of base station %d does not read back as written' % bs)
+            elif o is None or o.valid:
+                problems.append('geometry of base station %d (not in the configuration) still reads back valid' % bs)
+    if calibs is not None and got_c:
+        for bs in range(16):
+            o = got_c[0].get(bs)
+            if bs in calibs:
+                if o is None or not o.valid or not calib_eq(o, calibs[bs]):
+                    problems.append('calibration of base station %d does not read back as written' % bs)
+            elif o is None or o.valid:
+                problems.append('calibration of base station %d (not in the configuration) still reads back valid' % bs)
+    want_p = [(list(range(16)) if geos is not None else [], list(range(16)) if calibs is not None else [])]
+    if persisted != want_p:
+        problems.append('persist request %r' % (persisted,))
+    if problems:
+        ctx.violate('lh:config-writer:subset-of-base-stations-does-not-round-trip', dict(info, problems=problems[:4]))
+
+
 def run_lh(desc, ctx):
     from cflib.crazyflie.mem import LighthouseMemory
     rnd = random.Random(desc['seed'])
@@ -368,6 +489,8 @@ def run_lh(desc, ctx):
                     ctx.violate('lh:file-written-from-memory-objects-rejected:%s' % type(e).__name__, {'bs': bs, 'error': repr(e)[:300]})
             finally:
                 shutil.rmtree(dtmp, ignore_errors=True)
+        if it % 3 == 0:
+            run_lh_writer(ctx, rnd)
         if it == 0:
             ctx.sample({'lh_geometry_image': ref_g.hex(), 'bs': bs})
 
